@@ -387,3 +387,116 @@ def relation_writers(ctx, rep, rule):
                   "requirement edges change behind the back of requires(): the edges are no longer exactly the "
                   "ones the construction API built (a later requires(x, remove=True) raises, sanitize() has "
                   "nothing to report, a job added back has lost its edges)")
+
+
+# ======================================================= a sequence never drops a requirement
+class KeepModel(GraphModel):
+    """GraphModel + whether, on the current path, the watched parameter has been handed to a requires() call
+    or retained in the object"""
+    watched = None          # term of the parameter
+
+    def _mentions(self, terms):
+        w = self.watched
+        return any(T.contains(t, w) for t in terms if isinstance(t, tuple))
+
+    def on_call(self, ip, node, fterm, args, kws, st, fr):
+        hit = None
+        if fterm[0] == 'attr' and self._mentions(list(args) + [v for _k, v in kws]):
+            if fterm[2] == 'requires':
+                hit = ('handed', fterm[1])
+            elif fterm[2] in ('append', 'extend', 'add', 'update', 'insert') and fterm[1][0] == 'attr' \
+                    and fterm[1][1] == T.SELF:
+                hit = ('kept', fterm[1][2])
+        res = GraphModel.on_call(self, ip, node, fterm, args, kws, st, fr)
+        if hit is None:
+            return res
+        if res is None:
+            res = ip.call_generic(node, fterm, args, kws, st, fr)
+        out = []
+        for r in res:
+            x = r[0].set(consumed=hit)
+            out.append((x,) + tuple(r[1:]))
+        return out
+
+    def on_branch(self, ip, node, term, val, st, fr):
+        st = GraphModel.on_branch(self, ip, node, term, val, st, fr) or st
+        while term[:2] == ('unop', 'not'):
+            term, val = term[2], not val
+        if term == T.mk(('attr', T.SELF, 'jobs')) and fr.depth == 0:
+            # remembered beyond the join of the `if` (path facts are not)
+            st = st.set(was_empty=not val)
+        return st
+
+    def on_store_attr(self, ip, node, obj, attr, val, st, fr, aug=None):
+        r = GraphModel.on_store_attr(self, ip, node, obj, attr, val, st, fr, aug)
+        if obj == T.SELF and T.contains(val, self.watched):
+            base = r if r is not None else ip.default_store_attr(obj, attr, st)
+            if isinstance(base, list):
+                return [b.set(consumed=('kept', attr)) for b in base]
+            return base.set(consumed=('kept', attr))
+        return r
+
+
+def sequence_keeps_requirements(ctx, rep, rule):
+    """what is given as `required=` / to `requires()` of a sequence reaches its first job on every path:
+    it is handed to a job's requires() at once, or - when the sequence holds no job yet - kept in the object
+    and handed to the first job that is appended"""
+    r = ctx.roles
+    seq = r.sequence
+    if seq is None:
+        rep.error(rule, "sequence class not found")
+        return
+    kept_attrs = set()
+    nexits = 0
+    for name, param in (('__init__', 'required'), ('requires', None)):
+        f = seq.methods.get(name)
+        if f is None:
+            rep.error(rule, "%s.%s not found" % (seq.name, name))
+            continue
+        pname = param or f.vararg
+        if pname is None or (param and param not in f.params and param not in f.kwonly):
+            rep.error(rule, "%s has no parameter carrying the requirements" % f.qualname)
+            continue
+
+        class M(KeepModel):
+            watched = T.mk(('var', pname))
+        an, ip, out = ctx.explore(f, model=M)
+        exits = [(st, node) for st, _v, node in out.ret] + [(st, f.node) for st in out.nxt]
+        for st, node in exits:
+            nexits += 1
+            c = st.a('consumed')
+            if c and c[0] == 'kept':
+                kept_attrs.add(c[1])
+            none_known = st.facts.get(T.mk(('cmp', 'is', M.watched, T.NONE))) is True or \
+                st.facts.get(M.watched) is False
+            rep.check(bool(c) or none_known, rule,
+                      "%s exit with `%s` handed to the first job, or kept" % (f.qualname, pname), f.qualname,
+                      "a path through %s neither passes `%s` to a requires() call nor keeps it: %s"
+                      % (f.qualname, pname, [(T.show(k, 3), v) for k, v in st.facts.items()][:4]),
+                      "a requirement given to a sequence that holds no job yet is silently dropped: the job that "
+                      "becomes first later (append) does not get it", trace(st))
+    rep.need(rule, nexits, 3, "exits of the sequence constructor / requires")
+    # what is kept must be handed over by append() when the first jobs arrive
+    app = seq.methods.get('append')
+    for attr in sorted(kept_attrs):
+        if app is None:
+            rep.fail(rule, "%s.append hands over what was kept" % seq.name, seq.name, "no append()", "kept "
+                     "requirements are never applied")
+            continue
+
+        class M2(KeepModel):
+            watched = T.mk(('attr', T.SELF, attr))
+        an, ip, out = ctx.explore(app, model=M2)
+        jobs = T.mk(('attr', T.SELF, 'jobs'))
+        stores = [e for e in an.events('STORE') if e.data['attr'] == 'jobs' and e.data['obj'] == T.SELF] + \
+                 [e for e in an.events('MUT') if e.data['attr'] == 'jobs' and e.data['obj'] == T.SELF
+                  and e.data['how'] in ('extend', 'append', 'insert')]
+        rep.need(rule + ":append", len(stores), 1, "stores to the job list in append")
+        for e in stores:
+            if e.st.a('was_empty') is not False:
+                c = e.st.a('consumed')
+                rep.check(bool(c) and c[0] == 'handed', rule,
+                          "%s first jobs of an empty sequence get the kept requirements" % e.where, app.qualname,
+                          "`%s` on the path where the sequence was empty, without `<first>.requires(self.%s)`"
+                          % (src(stmt_of(e.node)), attr),
+                          "requirements kept while the sequence was empty never reach its first job", trace(e.st))
